@@ -18,12 +18,15 @@ def _own_text(o, k):
     return "own %d" % k
 
 
-def _bg_text(org, o, k):
+def _bg_text(org, o, k, param=False):
+    """param: the background step carries an outline placeholder (<b1> / <r1>) instead of its number; only used in
+    features whose scenarios are all outline rows, whose examples tables then have the columns b1.. / r1.."""
+    num = ("<%s%d>" % ("b" if org == "fbg" else "r", k)) if param else "%d" % k
     if o == "undefined":
-        return "nodef %s %d" % (org, k)
+        return "nodef %s %s" % (org, num)
     if o == "badarg":
-        return "bad %s %d" % (org, k)
-    return "%s %d" % (org, k)
+        return "bad %s %s" % (org, num)
+    return "%s %s" % (org, num)
 
 
 class Rendered(object):
@@ -57,14 +60,15 @@ class Rendered(object):
             self.by_loc[(fi, line)] = e["id"]
             self.line_of[e["id"]] = line
 
+        pbg = bool(f.get("pbg"))
         tagline(f["tags"], "")
         reg(self._take("feature"), emit("Feature: F%d" % fi))
         if f.get("bg") is not None:
             emit("  Background:")
             for k, s in enumerate(f["bg"]):
-                emit("    Given " + _bg_text("fbg", s["o"], k + 1))
+                emit("    Given " + _bg_text("fbg", s["o"], k + 1, pbg))
 
-        def items(lst, ind):
+        def items(lst, ind, rbg=None):
             for it in lst:
                 if it["kind"] == "rule":
                     emit("")
@@ -73,8 +77,8 @@ class Rendered(object):
                     if it.get("bg") is not None:
                         emit(ind + "  Background:")
                         for k, s in enumerate(it["bg"]):
-                            emit(ind + "    Given " + _bg_text("rbg", s["o"], k + 1))
-                    items(it["items"], ind + "  ")
+                            emit(ind + "    Given " + _bg_text("rbg", s["o"], k + 1, pbg))
+                    items(it["items"], ind + "  ", it.get("bg"))
                 elif it["kind"] == "scenario":
                     emit("")
                     tagline(it["tags"], ind)
@@ -90,13 +94,17 @@ class Rendered(object):
                     nst = len(it["blocks"][0]["rows"][0])
                     for k in range(nst):
                         emit(ind + "  Given <c%d>" % (k + 1))
+                    extra = []      # columns for parametrized background steps
+                    if pbg:
+                        extra = [("b%d" % (k + 1), "%d" % (k + 1)) for k in range(len(f.get("bg") or []))] + \
+                                [("r%d" % (k + 1), "%d" % (k + 1)) for k in range(len(rbg or []))]
                     for b in it["blocks"]:
                         emit("")
                         tagline(b["tags"], ind + "  ")
                         emit(ind + "  Examples:")
-                        emit(ind + "    | " + " | ".join("c%d" % (k + 1) for k in range(nst)) + " |")
+                        emit(ind + "    | " + " | ".join(["c%d" % (k + 1) for k in range(nst)] + [x[0] for x in extra]) + " |")
                         for row in b["rows"]:
-                            cells = [_own_text(s["o"], k + 1) for k, s in enumerate(row)]
+                            cells = [_own_text(s["o"], k + 1) for k, s in enumerate(row)] + [x[1] for x in extra]
                             reg(self._take("scenario"), emit(ind + "    | " + " | ".join(cells) + " |"))
         items(f["items"], "  ")
         self.files.append(("f%d.feature" % fi, "\n".join(lines) + "\n"))
